@@ -4,7 +4,8 @@
 From Coq Require Import ZArith List Bool Reals QArith Lia Lra.
 From Coquelicot Require Import Coquelicot.
 From CV Require Import Base.Num Base.RNum C06.RestraintModel C06.RestraintSched C06.RestraintTI C06.RestraintWork
-  C06.RestraintHist C06.RestraintProofs C18.ValueModel C18.ValueProofs C06.RestraintManifold.
+  C06.RestraintHist C06.RestraintProofs C18.ValueModel C18.ValueProofs C18.ExtraProofs C06.RestraintManifold
+  C06.RestraintGen C06.RestraintGenProofs.
 Import ListNotations.
 
 (* ---- closed-form potentials (R instance of the model) ------------------------------------------ *)
@@ -176,6 +177,33 @@ Theorem C06_center_schedule_staged : forall T (O : NumOps T) (c : rcfg) (evs : l
   s_first (m_st (run O c evs)) = c_it0 c.
 Proof. exact @center_schedule_staged. Qed.
 Print Assumptions C06_center_schedule_staged.
+
+(* ---- centres of ANY value type (generic machine RestraintGen.v: scalar, periodic, 3-vector, unit vector, quaternion, vector
+   centres; colvarvalue::interpolate incl. the normalisation of unit vectors and quaternions, colvar::wrap) ---------------- *)
+(* continuous: after ANY history centre_i(t) = wrap_i (interpolate_i c0_i c1_i (min(t - t0, N)/N)) *)
+Theorem C06_center_schedule_any_type : forall T (O : NumOps T) (pi : T) (c : gcfg) (evs : list gevent),
+  g_chg c = true -> g_nstages c = 0%Z -> (0 <= g_nsteps c)%Z -> evs <> [] ->
+  gs_centers (gm_st (grun O pi c evs)) = gclosed_centers O c (gm_it (grun O pi c evs)) /\
+  gs_first (gm_st (grun O pi c evs)) = g_it0 c.
+Proof. exact @gcenter_schedule_continuous. Qed.
+Print Assumptions C06_center_schedule_any_type.
+
+(* staged, every targetNumSteps >= 1 *)
+Theorem C06_center_schedule_staged_any_type : forall T (O : NumOps T) (pi : T) (c : gcfg) (evs : list gevent),
+  g_chg c = true -> (0 < g_nstages c)%Z -> (0 < g_nsteps c)%Z -> evs <> [] ->
+  gs_centers (gm_st (grun O pi c evs)) = gclosed_centers_staged O c (gm_it (grun O pi c evs)) /\
+  gs_stage (gm_st (grun O pi c evs)) = gnmoves c (gm_it (grun O pi c evs)) /\
+  gs_first (gm_st (grun O pi c evs)) = g_it0 c.
+Proof. exact @gcenter_schedule_staged. Qed.
+Print Assumptions C06_center_schedule_staged_any_type.
+
+(* the scheduled centre of a unit-vector / quaternion variable is on the manifold whenever the interpolation is defined
+   (the code raises "interpolation ... is undefined" otherwise): C18's lemmas about colvarvalue::interpolate *)
+Theorem C06_scheduled_center_on_manifold : forall (a b : vec3) (q1 q2 : quat) (l : R),
+  (uv_interp_undefined Rops a b l = false -> cv_interp Rops KUnit (V3 a) (V3 b) l = V3 (uv_interp Rops a b l) /\ is_unit (uv_interp Rops a b l)) /\
+  (q_interp_undefined Rops PI q1 q2 l = false -> cv_interp Rops KQuat (VQ q1) (VQ q2) l = VQ (q_interp Rops q1 q2 l) /\ q_unit (q_interp Rops q1 q2 l)).
+Proof. exact scheduled_center_on_manifold. Qed.
+Print Assumptions C06_scheduled_center_on_manifold.
 
 (* ---- accumulated work (R instance) ------------------------------------------------------------- *)
 (* steps_of c evs = the steps of the history with their values, each step once (run boundaries and restarts
